@@ -11,6 +11,10 @@ P = {
  "C03": dict(tech="runtime monitor: list model with capacity, checked after every op of exhaustive short and random sawtooth histories; raw slice length read through VerifDump",
              text="Exploration: all histories of length <=3 / <=4 over 13 growth/shrink symbols for k in 1..3 plus 20k / 1M random sawtooth histories (k in 1..6, and no/zero/negative capacity argument); "
                   "Len<=k, Cap/Avail/IsFull arithmetic, raw length and kept-earliest content compared with the model after every op.", ref="2 C03"),
+ "C05": dict(tech="runtime monitor: metamorphic oracle - independently rebuilt copies must compare equal, every single-point mutant must compare unequal, in both directions",
+             text="Exploration: 6k / 400k random tree descriptions with composite leaves (pointers of depth 1-3, slices, arrays, maps, structs); each instantiated twice and once per single-point mutation (about 50k / 3M mutants), four directed IsEqual calls per mutant, every call under recover.", ref="2 C05"),
+ "C06": dict(tech="runtime monitor: Condition state machine (acceptance rules, validity rule, rendering grammar) compared after every setter call of exhaustive and random histories",
+             text="Exploration: all setter histories of length <=3 / <=5 over a 10-symbol alphabet from three starts plus 40k / 2M random histories over accepted and rejected arguments; Keyword/Operator/Expression/Err/Valid/String compared with the model after every call.", ref="2 C06"),
  "C07": dict(tech="runtime monitor: differential against a reference descent written over Index/Convert*/Expression, all short paths per random tree",
              text="Exploration: 2.5k / 200k random trees (nil slots, Conditions, aliases, per-stack index options); per tree all paths of length 0..3 over [-1,5] and 600 sampled deeper ones (about 1.9M paths in quick); "
                   "value identity and success flag compared with stepwise descent.", ref="2 C07"),
